@@ -20,8 +20,9 @@ from harness.common import rat, corpus_cases
 PID = 'C20'
 CHUNKS = ['NoteSeqVerif.Props.C20_chunk%02d' % c for c in range(16)]
 PCM = 'NoteSeqVerif.Props.C20_pcm'
+REP = 'NoteSeqVerif.Props.C20_repeat'      # float side condition of repeat discharged (uses Proofs/Rounding*)
 MODULES = (['NoteSeqVerif.Proofs.C20_rne', 'NoteSeqVerif.Proofs.C20', 'NoteSeqVerif.Proofs.C20_pcm'] + CHUNKS +
-           ['NoteSeqVerif.Proofs.C20_pcm_all', PCM, 'NoteSeqVerif.Props.C20'])
+           ['NoteSeqVerif.Proofs.C20_pcm_all', PCM, 'NoteSeqVerif.Proofs.C20_repeat', REP, 'NoteSeqVerif.Props.C20'])
 EXE = 'drv_c20'
 THEOREMS = [
     (PCM, 'NSV.C20.pcm_roundtrip'), (PCM, 'NSV.C20.pcm_roundtrip_formula'), (PCM, 'NSV.C20.pcm_roundtrip_list'),
@@ -32,6 +33,7 @@ THEOREMS = [
     'NSV.C20.repeat_errors', 'NSV.C20.repeat_empty', 'NSV.C20.repeat_prefix', 'NSV.C20.repeat_spec',
     'NSV.C20.repeatEnough_exact', 'NSV.C20.repeat_spec_exact', 'NSV.C20.repeat_spec_float',
     'NSV.C20.repeat_nonpos_exact',
+    (REP, 'NSV.C20.repeatEnough_float'), (REP, 'NSV.C20.repeatEnough_rne53'), (REP, 'NSV.C20.repeat_spec_float_total'),
     'NSV.C20.stereo_spec', 'NSV.C20.stereo_channels', 'NSV.C20.stereo_dtype_error',
 ]
 
